@@ -1079,5 +1079,7 @@ func runC15(c *Cfg) {
 	c15EscapeCases(c, r.Sub())
 	c15EscapeExt(c, r.Sub())
 	c15WitnessDupOrder(c)
+	c15JoinCases(c, r.Sub())
+	lap("join")
 	lap("escape")
 }
